@@ -2,5 +2,5 @@ SPECIFICATION Spec
 CONSTANTS
   Passes = {1, 2, 3}
   InitFails = FALSE
-  LatchReturnsError = FALSE
+  LatchSkips = TRUE
 INVARIANTS NoPanic CfgOrErr NoPartial NoParamRace WrittenOnce MutexOK
